@@ -39,6 +39,7 @@ from batchie.scoring.rand import RandomScorer  # noqa: E402
 from batchie.scoring.size import SizeScorer  # noqa: E402
 
 PROP = "C06"
+EPILOGUE_ITEMS = 4
 LEVEL = "model_checking"
 ENGINE = "E1-input-enumeration+E2-choice-tree"
 TECHNIQUE = (
